@@ -2,7 +2,8 @@
    one token list out, mirroring harness/src/ops.rs line for line.  Evaluated both by the
    extracted OCaml driver and (on a sample) inside Coq by vm_compute. *)
 From Coq Require Import String.
-From TlshV Require Import Model.Machine Model.Tokens Gen.Tables Model.MLength Model.MHexStr Model.MHash.
+From TlshV Require Import Model.Machine Model.Tokens Gen.Tables Model.MLength Model.MHexStr Model.MHash
+  Model.MPearson Model.MGenerate Model.MFloat Model.MFinalize.
 Open Scope string_scope.
 Open Scope list_scope.
 Open Scope N_scope.
@@ -17,7 +18,12 @@ Record mcfg := {
   c_enc : hex_enc;
   c_simd_parse : bool;
   c_simd_convert : bool;
+  c_low_mem : bool;
+  c_double : bool;
 }.
+
+Definition gcfg_of (c : mcfg) : gcfg :=
+  {| gc_low_mem := c_low_mem c; gc_double := c_double c; gc_unsafe := c_unsafe c; gc_dbg := c_dbg c |}.
 
 Definition hcfg_of (c : mcfg) : hcfg :=
   {| hc_strict := c_strict c; hc_dec := c_dec c; hc_enc := c_enc c;
@@ -26,7 +32,8 @@ Definition hcfg_of (c : mcfg) : hcfg :=
 
 Definition default_cfg : mcfg :=
   {| c_strict := false; c_unsafe := false; c_dbg := true; c_len := LenClz;
-     c_dec := DecFull; c_enc := EncFull; c_simd_parse := true; c_simd_convert := true |}.
+     c_dec := DecFull; c_enc := EncFull; c_simd_parse := true; c_simd_convert := true;
+     c_low_mem := false; c_double := true |}.
 
 Definition cfg_of_flags (fl : list N) : mcfg :=
   let has k := existsb (N.eqb k) fl in
@@ -34,7 +41,7 @@ Definition cfg_of_flags (fl : list N) : mcfg :=
      c_len := if has 4 then LenWhole else LenClz;
      c_dec := if has 12 then DecMin else if has 11 then DecQuarter else if has 10 then DecHalf else DecFull;
      c_enc := if has 14 then EncMin else if has 13 then EncHalf else EncFull;
-     c_simd_parse := has 15; c_simd_convert := has 16 |}.
+     c_simd_parse := has 15; c_simd_convert := has 16; c_low_mem := has 17; c_double := has 18 |}.
 
 Definition show_perr (e : parse_error) : tok :=
   match e with
@@ -259,6 +266,175 @@ Definition dispatch_hash (c : mcfg) (op : tok) (args : list tok) : option (list 
     end
   else None.
 
+(* ---- generator ---- *)
+
+Definition options_of (bits : N) : options :=
+  {| o_mode := if N.testbit bits 0 then Conservative else Optimistic;
+     o_pure_int := N.testbit bits 1; o_small := N.testbit bits 2;
+     o_half := N.testbit bits 3; o_quarter := N.testbit bits 4 |}.
+
+Definition show_gerr (e : gen_error) : tok :=
+  match e with
+  | TooLargeInput => S "TooLargeInput" | TooSmallInput => S "TooSmallInput"
+  | BucketsAreHalfEmpty => S "BucketsAreHalfEmpty"
+  | BucketsAreThreeQuarterEmpty => S "BucketsAreThreeQuarterEmpty"
+  end.
+
+Definition show_gen_res (r : outcome gen_error hash) : list tok :=
+  out_or r (fun h => [S "ok"; TB (hash_bytes h)]) (fun e => [S "err"; show_gerr e]).
+
+Definition le32 (x : N) : list N :=
+  [x mod 256; (x / 256) mod 256; (x / 65536) mod 256; (x / 16777216) mod 256].
+Fixpoint un_le32 (l : list N) : list N :=
+  match l with
+  | a :: b :: c :: d :: r => (a + 256 * b + 65536 * c + 16777216 * d) :: un_le32 r
+  | _ => []
+  end.
+
+(* the byte generator shared with the harness (ops.rs lcg_next) *)
+Fixpoint lcg_bytes (n : nat) (st : N) : list N :=
+  match n with
+  | O => []
+  | Datatypes.S n' => let st' := wrap32 (st * 1664525 + 1013904223) in (st' / 16777216) :: lcg_bytes n' st'
+  end.
+
+Definition sep : tok := S "|".
+
+(* history interpreter: a stack of generators; errors of the machine itself are reported as a token *)
+Fixpoint run_hist (gc : gcfg) (v : variant) (fuel : nat) (ops : list tok) (stack : list gstate) (acc : list (list tok))
+  : list (list tok) :=
+  match fuel with
+  | O => acc ++ [[S "MODEL-OUT-OF-FUEL"]]
+  | Datatypes.S fuel' =>
+    match ops, stack with
+    | [], _ => acc
+    | _, [] => acc ++ [[S "MODEL-EMPTY-STACK"]]
+    | op :: rest, top :: below =>
+        if is_sym op "u" then
+          match rest with
+          | TB d :: rest' =>
+              match @update unit gc v top d with
+              | Ok s' => run_hist gc v fuel' rest' (s' :: below) acc
+              | Panic => acc ++ [[S "PANIC"]]
+              | UB => acc ++ [[S "UB"]]
+              | Err _ => acc ++ [bad]
+              end
+          | _ => acc ++ [bad]
+          end
+        else if is_sym op "ugen" then
+          match rest with
+          | TN seed :: TN n :: rest' =>
+              match @update unit gc v top (lcg_bytes (N.to_nat n) seed) with
+              | Ok s' => run_hist gc v fuel' rest' (s' :: below) acc
+              | Panic => acc ++ [[S "PANIC"]]
+              | UB => acc ++ [[S "UB"]]
+              | Err _ => acc ++ [bad]
+              end
+          | _ => acc ++ [bad]
+          end
+        else if is_sym op "f" then
+          match rest with
+          | TN bits :: rest' =>
+              run_hist gc v fuel' rest' stack (acc ++ [show_gen_res (finalize_exec gc v (options_of bits) top)])
+          | _ => acc ++ [bad]
+          end
+        else if is_sym op "fd" then
+          run_hist gc v fuel' rest stack (acc ++ [show_gen_res (finalize_exec gc v (options_of 2) top)])
+        else if is_sym op "l" then
+          run_hist gc v fuel' rest stack
+            (acc ++ [match processed_len top with Some x => [S "some"; TN x] | None => [S "none"] end])
+        else if is_sym op "r" then
+          run_hist gc v fuel' rest stack
+            (acc ++ [[S "raw"; TB (flat_map le32 (firstn (N.to_nat (nb_of (v_bk v))) (g_buckets top)));
+                      TN (g_len top); TB (g_cks top); TB (g_tail top); TN (g_tail_len top)]])
+        else if is_sym op "c" then run_hist gc v fuel' rest (top :: top :: below) acc
+        else if is_sym op "p" then
+          run_hist gc v fuel' rest (match below with [] => stack | _ => below end) acc
+        else if is_sym op "w" then
+          run_hist gc v fuel' rest (match below with b :: bb => b :: top :: bb | [] => stack end) acc
+        else acc ++ [bad]
+    end
+  end.
+
+Fixpoint join_sep (l : list (list tok)) : list tok :=
+  match l with
+  | [] => []
+  | [x] => x
+  | x :: r => x ++ [sep] ++ join_sep r
+  end.
+
+Definition pad_to (n : nat) (l : list N) : list N := l ++ repeat 0 (n - length l).
+
+Definition dispatch_gen (c : mcfg) (op : tok) (args : list tok) : option (list tok) :=
+  let gc := gcfg_of c in
+  if is_sym op "hash" then
+    match args with
+    | [vt; TN bits; TB data] =>
+        match variant_of vt with
+        | Some v =>
+            match @update unit gc v (g_init gc v) data with
+            | Ok s => Some (show_gen_res (finalize_exec gc v (options_of bits) s))
+            | _ => Some [S "PANIC"]
+            end
+        | None => Some bad
+        end
+    | _ => Some bad
+    end
+  else if is_sym op "hashbuf" then
+    match args with
+    | [vt; TB data] =>
+        match variant_of vt with
+        | Some v =>
+            match @update unit gc v (g_init gc v) data with
+            | Ok s => Some (show_gen_res (finalize_exec gc v (options_of 2) s))
+            | _ => Some [S "PANIC"]
+            end
+        | None => Some bad
+        end
+    | _ => Some bad
+    end
+  else if is_sym op "hist" then
+    match args with
+    | vt :: rest =>
+        match variant_of vt with
+        | Some v =>
+            match rest with
+            | inj :: TB bks :: TN len :: TB cks :: TB tail :: TN tl :: ops =>
+                if is_sym inj "inject" then
+                  let phys := N.to_nat (phys_buckets gc (v_bk v)) in
+                  let s0 := {| g_buckets := firstn phys (pad_to 256 (un_le32 bks)); g_len := len;
+                               g_cks := firstn (N.to_nat (v_cks v)) cks; g_tail := tail; g_tail_len := tl |} in
+                  Some (join_sep (run_hist gc v (Datatypes.S (length ops)) ops [s0] []))
+                else Some (join_sep (run_hist gc v (Datatypes.S (length rest)) rest [g_init gc v] []))
+            | _ => Some (join_sep (run_hist gc v (Datatypes.S (length rest)) rest [g_init gc v] []))
+            end
+        | None => Some bad
+        end
+    | _ => Some bad
+    end
+  else if is_sym op "bmap" then
+    match args with
+    | [TN kind; TN a0; TN a1; TN a2; TN a3] =>
+        if kind =? 48 then Some [TN (b_mapping_48 (gc_double gc) a0 a1 a2 a3)]
+        else Some [TN (b_mapping_256 (gc_double gc) a0 a1 a2 a3)]
+    | _ => Some bad
+    end
+  else if is_sym op "pearson" then
+    match args with
+    | [TN st; TN b1; TN b2] =>
+        Some [TN (p_update st b1); TN (p_update_double (gc_double gc) st b1 b2); TN (p_final_48 st b1)]
+    | _ => Some bad
+    end
+  else if is_sym op "agg" then
+    match args with
+    | [TN size; be; TN q1; TN q2; TN q3; TB bks] =>
+        if is_sym be "naive" then
+          Some (out_or (@aggregate_naive unit (c_dbg c) (size / 4) (un_le32 bks) q1 q2 q3) (fun b => [TB b]) (fun _ => bad))
+        else None
+    | _ => Some bad
+    end
+  else None.
+
 Definition dispatch (c : mcfg) (line : list tok) : list tok :=
   match line with
   | [] => bad
@@ -268,8 +444,11 @@ Definition dispatch (c : mcfg) (line : list tok) : list tok :=
       | None =>
       match dispatch_hash c op args with
       | Some r => r
+      | None =>
+      match dispatch_gen c op args with
+      | Some r => r
       | None => [S "MODEL-UNKNOWN-OP"]
-      end end
+      end end end
   end.
 
 Definition dispatch_flags (fl : list N) (line : list tok) : list tok :=
